@@ -148,12 +148,13 @@ type HTables struct {
 	// assumptions on condition atoms
 	Assume []HAssume
 	// round 3
-	CtxBuilders    map[string]bool   // in-package constructors of a vmContext
-	ErrCtors       map[string]bool   // calls that build a non-nil error value / message ("C.CString", "errors.New", …)
-	SQLExecMethods map[string]bool   // "pkg.Type.Method" of database/sql that execute an SQL text
-	SQLPrefixes    [][2]string       // (leading SQL text, lower case; kind), first match wins
-	RefuseExempt   map[string]string // functions whose behaviour depends on a read-only flag without returning an error -> why that is accepted
-	TypedBenign    map[string]bool   // "Type.field": bookkeeping fields, valid only on receivers of that (in-package) type
+	CtxBuilders    map[string]bool     // in-package constructors of a vmContext
+	ErrCtors       map[string]bool     // calls that build a non-nil error value / message ("C.CString", "errors.New", …)
+	SQLExecMethods map[string]bool     // "pkg.Type.Method" of database/sql that execute an SQL text
+	SQLPrefixes    [][2]string         // (leading SQL text, lower case; kind), first match wins
+	RefuseExempt   map[string]string   // functions whose behaviour depends on a read-only flag without returning an error -> why that is accepted
+	TypedBenign    map[string]bool     // "Type.field": bookkeeping fields, valid only on receivers of that (in-package) type
+	ExtResults     map[string][]string // result types of functions / methods of packages that are not parsed ("sql.Open" -> ["*sql.DB", "error"])
 }
 
 type HAssume struct {
@@ -1051,6 +1052,18 @@ func (x *hxExtractor) fieldType(t ast.Expr, p string, field string, depth int) (
 	return nil, ""
 }
 
+func hxParseTypes(ts []string) []ast.Expr {
+	var out []ast.Expr
+	for _, t := range ts {
+		e, err := parser.ParseExpr(t)
+		if err != nil {
+			e = nil
+		}
+		out = append(out, e)
+	}
+	return out
+}
+
 func (x *hxExtractor) resultTypes(e ast.Expr) ([]ast.Expr, string) {
 	c, ok := e.(*ast.CallExpr)
 	if !ok {
@@ -1102,10 +1115,16 @@ func (x *hxExtractor) resultTypes(e ast.Expr) ([]ast.Expr, string) {
 					return res(fd.Type), id.Name
 				}
 			}
+			if ts, ok := x.tab.ExtResults[id.Name+"."+f.Sel.Name]; ok {
+				return hxParseTypes(ts), ""
+			}
 			return nil, ""
 		}
 		t, p := x.typeOf(f.X)
 		if tp, tn, ok := x.typeName(t, p); ok {
+			if ts, ok := x.tab.ExtResults[tp+"."+tn+"."+f.Sel.Name]; ok && tp != "" {
+				return hxParseTypes(ts), ""
+			}
 			if fd, fp := x.method(tp, tn, f.Sel.Name, 0); fd != nil {
 				return res(fd.Type), fp
 			}
